@@ -16,6 +16,7 @@ import GoZero.Extracted.C05
 import GoZero.C05.Proofs
 import GoZero.C05.ModelOpts
 import GoZero.C05.ModelWG
+import GoZero.C05.ModelCond
 namespace GoZero.C05.Tie
 open GoZero.C05
 open GoZero.Extracted.C05
@@ -382,5 +383,14 @@ theorem tie_workerGroup_model :
     ∧ workerGroupShape = ["call NewRoutineGroup", "for i < wg.workers {", "call group.RunSafe", "}", "call group.Wait"]
     ∧ workerGroupFwd = ["wg.job"] := by
   refine ⟨fun _ _ => rfl, by decide, rfl, by decide, by decide⟩
+
+/-- `Cond`: the remaining time `WaitWithTimeout` returns on the signal branch, translated from the Go expression, is the
+model's `waitResult` for all arguments; `Wait` is one receive from `cond.signal`; the value pairs per branch
+(`remainTimeout, true` / `0, false`) and the unbuffered channel are `tie_cond_channel`. -/
+theorem tie_cond_model :
+    (∀ timeout elapsed : Int, condRemainExpr timeout elapsed = (waitResult timeout (.signalled elapsed)).1)
+    ∧ condWaitPlainShape = ["recv cond.signal"]
+    ∧ (∀ d, (waitResult d .timerFired) = (0, false)) := by
+  exact ⟨fun _ _ => rfl, by decide, fun _ => rfl⟩
 
 end GoZero.C05.Tie
